@@ -1076,14 +1076,20 @@ func expandPhis(e ExitPoint, depth int) []ExitPoint {
 		ne := ExitPoint{Ret: e.Ret, Results: rs, Block: pred, Edge: phiBlock}
 		// the predecessor may merge again (phi of phi)
 		sub := ExitPoint{Ret: e.Ret, Results: rs, Block: pred}
-		hasPhiInPred := false
+		hasPhi := false
 		for _, v := range rs {
-			if p, ok := v.(*ssa.Phi); ok && p.Block() == pred {
-				hasPhiInPred = true
+			if p, ok := v.(*ssa.Phi); ok && (p.Block() == pred || p.Block().Dominates(pred)) {
+				hasPhi = true
 			}
 		}
-		if hasPhiInPred {
-			out = append(out, expandPhis(sub, depth+1)...)
+		if hasPhi {
+			// an alternative that is itself a merge further up (result variables handed through several merges)
+			subs := expandPhis(sub, depth+1)
+			if len(subs) == 1 && subs[0].Block == pred && subs[0].Edge == nil {
+				out = append(out, ne)
+			} else {
+				out = append(out, subs...)
+			}
 		} else {
 			out = append(out, ne)
 		}
